@@ -187,6 +187,8 @@ C03Checks(e) ==
      ELSE
        Chk("C03.table.31-entries", y, n = 31 /\ e.tablen = 31)
        + Chk("C03.table.canonical-order", y, \A i \in 1..31 : e.tab[i][1] = TermKeys31[i])
+       \* the year object a caller holds keeps its table while tables of other years are built
+       + Chk("C03.table.held-object-unchanged", y, e.jdheld = e.jd)
        \* the published date-time is the real-valued instant rounded to the nearest second
        + SumN(31, LAMBDA i :
            Chk("C03.table.instant", << y, i, e.jd[i], e.tab[i] >>,
